@@ -76,7 +76,10 @@ func (m Mapping) modelV(v float64) []int64 {
 	if math.IsNaN(v) {
 		return []int64{}
 	}
-	x := v / m.Scale
+	if m.Off != 0 && v == 0 {
+		return []int64{0} // the zero bytes of a never-written slot (no model value maps to 0.0 under an offset mapping)
+	}
+	x := (v - m.Off) / m.Scale
 	if x != math.Trunc(x) || math.Abs(x) > 2e9 {
 		unrepSeen = true
 		return []int64{unrepresentable}
